@@ -23,7 +23,7 @@ THEOREMS = ["C18_segments_tile", "C18_segments_cover_exactly_once",
             "C18_spectrum_history_independent", "C18_spectrum_accessors_report_parameters",
             "C18_wavelength_centres", "C18_gaussian_bin_power_is_cdf_difference",
             "C18_gaussian_power_telescopes", "C18_constant_bin_power", "C18_constant_power_sums_to_one",
-            "C18_beam_rejected_setter_leaves_stale_parameter", "C18_constant_spectrum_refuted_in_doubles"]
+            "C18_beam_rejected_setter_leaves_stale_parameter"]
 
 KINDS = ["KUniform", "KBiv", "KTri", "KBeam"]
 FIELDS = ["Fed", "Fpe", "Fpl", "Fsx", "Fsy", "Fsz", "Fmz", "Fwz", "Fsw", "Fwl", "Frad", "Flen"]
@@ -313,7 +313,7 @@ def run_profile_case(L, case, rng, c, ctx):
     probes = []
     for (x, y, z) in probe_points(rng, kind, rep, c):
         arg = exp_arg_float(kind, rep, c, x, y, z)
-        ev = math.exp(arg) if arg > -700 else 0.0
+        ev = math.exp(arg)
         probes.append(((x, y, z), arg, ev, float(obj.get_energy_density(x, y, z))))
     obs["probes"] = probes
     pv = obj.get_polarization(0.0, 0.0, 0.0)
@@ -387,7 +387,7 @@ def run_spectrum_case(L, case, rng, ctx):
     for x in xs:
         if kind == "SGauss":
             arg = -0.5 * ((x - rep[4]) * (1 / rep[5])) ** 2
-            ev = math.exp(arg) if arg > -700 else 0.0
+            ev = math.exp(arg)
         else:
             arg, ev = 0.0, 0.0
         evals.append((x, arg, ev, float(obj(x))))
@@ -501,7 +501,7 @@ def run(ctx):
         "the per-bin power array (_power) has no Python accessor; it is observed as power_spectral_density * delta_wavelength",
     ]
     ctx.rebuild()
-    ctx.proofs("Properties.C18", THEOREMS, extra_modules=("Model.C18_Check",))
+    ctx.proofs("Properties.C18", THEOREMS, extra_modules=("Model.C18_Check", "Proofs.C18_Float"))
 
     import cherab
     assert list(cherab.__path__) == [REPO + "/cherab"], cherab.__path__
@@ -602,15 +602,8 @@ def run(ctx):
         fails += fl
     # extra tiling sweep over many radius / length combinations (cheap)
     fails += S.search_tiling(L, rng, 300 if quick else 5000, stats)
-    known_edge = [f for f in fails if f["key"] == S.KEY_CONST_EDGE]
-    other = [f for f in fails if f["key"] != S.KEY_CONST_EDGE]
+    other = fails
     ctx.obligation("executable property on the implementation (%d objects)" % len(objs), "search", not other, str(other[:3]))
-    if known_edge:
-        ctx.violation(S.KEY_CONST_EDGE,
-                      "ConstantSpectrum: the outermost bin edge computed in doubles falls outside [min, max], evaluate() returns 0 there and "
-                      "the edge bin gets half its power: sum of the bin powers != 1 (%d of %d constant spectra of this run)"
-                      % (len(known_edge), sum(1 for cs, ob, o, _ in objs if o is not None and cs["type"] == "spectrum" and cs["kind"] == "SConst")),
-                      known_edge[0], found=True)
     seen = set()
     for fobj in other:
         if fobj["key"] in seen:
@@ -669,9 +662,9 @@ def run(ctx):
         "distribution": dist,
         "tolerance": {"call results, reported parameters, bins, radius": "exact", "energy density": "2^-36 relative (exp oracle argument validated to 2^-40)",
                       "segment offsets/heights, wavelengths, delta, polarisation": "2^-48", "Gaussian bin power": "2^-34 absolute",
-                      "constant-spectrum edge bins": "the two outermost edges have margin 0 in the comparison min<=edge<=max: full or half "
-                                                     "contribution accepted in the tie, decided by the search (sum of powers = 1)"},
-        "ambiguous": {"constant_spectrum_objects_with_edge_outside_range": stats["const_edge_cases"]},
+                      "constant-spectrum bin power": "2^-46 * max/(max-min) absolute (bin edges are accumulated in doubles; a clipped outer "
+                                                     "bin sees ulp(wavelength)/(max-min)); a halved bin is off by 1/(2 bins)"},
+        "ambiguous": {"constant_spectrum_objects_with_an_outer_edge_rounded_outside_the_range": stats["const_edge_cases"]},
         "partial": ["Gaussian integral / Fubini / erf as normal CDF are classical analysis, not proved (theorems *_partial state what is assumed)",
                     "rejected values of the two unguarded GaussianBeamAxisymmetric setters are outside the history theorem"],
     })
